@@ -347,10 +347,10 @@ pub fn handler_body(h: &str, args: Vec<Value>) -> expression_engine::Result<Valu
     // re-entrant actions run outside the harness's own bookkeeping lock
     match act.as_str() {
         "parse" => {
-            let _ = expression_engine::parse_expression("1 + 2 * 3");
+            let _ = expression_engine::parse_expression("1 - 2 * 3");
         }
         "execute" => {
-            let _ = expression_engine::execute("1 + 2 * 3", Context::new());
+            let _ = expression_engine::execute("1 - 2 * 3", Context::new());
         }
         "regfun" => expression_engine::register_function("reent_f", Arc::new(|_| Ok(Value::None))),
         "regprefix" => expression_engine::register_prefix_op("reent_pre", Arc::new(|v| Ok(v))),
@@ -443,6 +443,10 @@ pub struct Observed {
 }
 
 /// Run one case {prog, ctx0, handlers, acts?, gfun, gprefix?, ginfix?, gpostfix?, fault} on the real engine.
+/// determinism replay: once every global handler a file needs has been registered, cases no longer re-register them, so that
+/// anything that silently puts a built-in back (or drops a registration) between two evaluations is seen
+pub static SKIP_GLOBAL_REGISTRATIONS: std::sync::atomic::AtomicBool = std::sync::atomic::AtomicBool::new(false);
+
 pub fn run_case(r: &J, followups: bool) -> Observed {
     run_case_src(r, followups, None, None)
 }
@@ -470,6 +474,9 @@ pub fn run_case_src(r: &J, followups: bool, shared: Option<&ExprAST<'static>>, t
     // registrations can themselves panic when an earlier evaluation left a registry mutex poisoned: that is an outcome of
     // the code under test, not a harness failure
     let regs_ok = guarded(std::panic::AssertUnwindSafe(|| {
+        if SKIP_GLOBAL_REGISTRATIONS.load(std::sync::atomic::Ordering::SeqCst) {
+            return;
+        }
         for (name, h) in obj(r, "gfun") {
             expression_engine::register_function(name, handler_arc(h.as_str().unwrap()));
         }
@@ -578,7 +585,7 @@ pub fn run_case_src(r: &J, followups: bool, shared: Option<&ExprAST<'static>>, t
             let probe = guarded(std::panic::AssertUnwindSafe(|| {
                 ctx.set_variable("__probe", Value::from(1));
                 let v = ctx.get_variable("__probe");
-                let e = parse_expression("__probe + 1").and_then(|a| a.exec(&mut ctx));
+                let e = parse_expression("__probe - -1").and_then(|a| a.exec(&mut ctx));
                 (v, e)
             }));
             match probe {
@@ -593,7 +600,7 @@ pub fn run_case_src(r: &J, followups: bool, shared: Option<&ExprAST<'static>>, t
         if !CONCURRENT.load(std::sync::atomic::Ordering::SeqCst) && !expression_engine::verif_hooks::locks_free().iter().all(|b| *b) {
             fu.push("a registry mutex is held or poisoned after the evaluation".to_string());
         }
-        let other = std::thread::spawn(|| guarded(|| expression_engine::execute("2 * 3 + 1", Context::new()))).join();
+        let other = std::thread::spawn(|| guarded(|| expression_engine::execute("2 * 3 - -1", Context::new()))).join();
         match other {
             Ok(Ok(Ok(v))) if v == Value::from(7) => {}
             _ => fu.push("evaluation on another thread misbehaves afterwards".to_string()),
@@ -872,6 +879,11 @@ pub fn eval_record(args: &[String]) {
 /// evaluation of its neighbours (other programs, other contexts); the outcomes must be identical, the registries (hook H5
 /// snapshot: names, configuration, handler identity) must be the same before and after every parse and evaluation, and parsing the
 /// program text twice must give equal trees and leave the context alone.
+/// The registries as hook H5 reports them; None when reading them panics (a poisoned mutex is an outcome of the code under test).
+fn snapshot() -> Option<expression_engine::verif_hooks::RegistrySnapshot> {
+    guarded(expression_engine::verif_hooks::registry_snapshot).ok()
+}
+
 pub fn determinism_replay(args: &[String]) {
     silence_panics();
     expression_engine::verif_hooks::init();
@@ -898,6 +910,7 @@ pub fn determinism_replay(args: &[String]) {
     };
     let probe_base: Vec<Result<J, String>> = probes.iter().map(parse_probe).collect();
     let mut probe_failed = false;
+    SKIP_GLOBAL_REGISTRATIONS.store(true, std::sync::atomic::Ordering::SeqCst);
     for idx in 0..recs.len() {
         n += 1;
         let mut why: Vec<String> = Vec::new();
@@ -913,9 +926,11 @@ pub fn determinism_replay(args: &[String]) {
         }
         // warm-up so that the registrations this case needs are in place before the snapshot
         let first = run_case(&recs[idx], false);
-        let snap0 = expression_engine::verif_hooks::registry_snapshot();
+        let snap0 = snapshot();
         let neighbour = &recs[(idx + 1) % recs.len()];
         let other = run_case(neighbour, false);
+        // a thread that has never touched the engine makes its first call (one-time initialisation may not happen again)
+        let _ = std::thread::spawn(|| guarded(|| parse_expression("1 < 2").map(|_| ()))).join();
         let second = run_case(&recs[idx], false);
         let _ = run_case(&recs[(idx + 7) % recs.len()], false);
         let third = run_case(&recs[idx], false);
@@ -927,20 +942,25 @@ pub fn determinism_replay(args: &[String]) {
             why.push("a neighbouring evaluation changed its outcome".into());
         }
         // registrations made by run_case re-register the same names with fresh closures, so compare names and configuration only
-        let snap1 = expression_engine::verif_hooks::registry_snapshot();
+        let snap1 = snapshot();
         let names = |s: &expression_engine::verif_hooks::RegistrySnapshot| {
             (s.prefix.iter().map(|x| x.0.clone()).collect::<Vec<_>>(), s.infix.iter().map(|x| (x.0.clone(), x.1, x.2, x.3)).collect::<Vec<_>>(),
              s.postfix.iter().map(|x| x.0.clone()).collect::<Vec<_>>(), s.function.iter().map(|x| x.0.clone()).collect::<Vec<_>>())
         };
-        if names(&snap0) != names(&snap1) {
-            why.push("evaluating programs changed a registry".into());
+        match (&snap0, &snap1) {
+            (Some(a), Some(b)) => {
+                if names(a) != names(b) {
+                    why.push("evaluating programs changed a registry".into());
+                }
+            }
+            _ => why.push("a registry cannot be read any more (its mutex was poisoned by an evaluation)".into()),
         }
         // parse alone: render the tree, parse the text twice, compare, and check that nothing observable changed
         let mut ctx = Context::new();
         let mut hidden = 0u32;
         let ast = build_ast(&recs[idx]["prog"], &mut ctx, &mut hidden);
         let text = ast.expr();
-        let before = expression_engine::verif_hooks::registry_snapshot();
+        let before = snapshot();
         let t1 = text.clone();
         let t2 = text.clone();
         let p1 = guarded(move || parse_expression(leak(&t1)).map(|a| crate::astjson::ast_to_json(&a)).ok());
@@ -949,7 +969,7 @@ pub fn determinism_replay(args: &[String]) {
         if p1 != p2 {
             why.push(format!("parsing {:?} twice gave different results", text));
         }
-        if expression_engine::verif_hooks::registry_snapshot() != before {
+        if snapshot() != before {
             why.push("parsing changed a registry (names, configuration or handler identity)".into());
         }
         if !why.is_empty() {
